@@ -3263,7 +3263,7 @@ def lemmas():
     return out
 
 
-def native_scope(repo, tier):
+def _native_obligation(repo, oid, bound):
     """BOUNDED stand-in (DESIGN 2.8) for the functions that are not (or only boundedly) under contract -- _parse_header,
     _parse_main_header, _parse_streams_info, _parse_files_info, SevenZipFile, lzma glue: the native differential scope of
     replay/C10.py (reference writers x layouts x member sets: read_archive == direct extraction per member; SevenZipReader
@@ -3272,7 +3272,6 @@ def native_scope(repo, tier):
     import json
     import os
     import subprocess
-    oid = "C10/replay::native-scope/bounded#read_archive-equals-direct-extraction-per-member.BOUNDED"
     req = {"property": "C10", "obligation": oid, "repo": repo}
     try:
         p = subprocess.run(["/venv/bin/python", os.path.join(os.path.dirname(os.path.dirname(os.path.abspath(__file__))), "replay", "run.py")],
@@ -3287,8 +3286,24 @@ def native_scope(repo, tier):
     o = ground_obligation(oid, ok, "" if ok else f"{res.get('target')}: {json.dumps(res.get('inputs'), default=repr)[:300]} -> {str(res.get('observed'))[:300]}",
                           "replay/C10.py", kind="bounded", backend="native-replay")
     o["bounded"] = True
-    o["bound"] = "zipfile stored/deflated, tarfile plain/gz/bz2/xz in pax/gnu/ustar format, own 7z writer copy/LZMA/LZMA2 x solid / blocks / folder per file; 14 member sets (0..11 members, directories, zero-length, hidden, unsupported, nested, corrupt, non-ASCII names)"
+    o["bound"] = bound
     return {"obligations": [o]}
+
+
+def native_scope(repo, tier):
+    """BOUNDED stand-in for everything on the property's path that is not (or only boundedly) under contract: see _native_obligation"""
+    return _native_obligation(repo, "C10/replay::native-scope/bounded#read_archive-equals-direct-extraction-per-member.BOUNDED",
+                              "zipfile stored/deflated, tarfile plain/gz/bz2/xz in pax/gnu/ustar format, own 7z writer copy/LZMA/LZMA2 x solid / blocks / folder per file; "
+                              "20 member sets (0..130 members, directories, zero-length, hidden, unsupported, nested, corrupt, dotted / non-ASCII / long names); "
+                              "one 9.7 MB solid LZMA2 folder with a 32 MiB dictionary")
+
+
+def native_files_info(repo, tier):
+    """_parse_files_info is not symbolically under contract (names are decoded through a growing bytearray): its executable contract --
+    the vectors handed to _build_file_list equal the FilesInfo grammar -- is run natively on generated sections (BOUNDED)"""
+    return _native_obligation(repo, "C10/sevenzip.py::SevenZipReader._parse_files_info/bounded#vectors-handed-to-_build_file_list-equal-the-FilesInfo-grammar.BOUNDED",
+                              "every ordered pair of 10 interesting UTF-16 code units in names; 1..20 entries with mixed EmptyStream / EmptyFile bits; "
+                              "property orders; unknown properties skipped by size")
 
 
 def known_findings(kf, violations, repo, tier):
@@ -3318,7 +3333,7 @@ def known_findings(kf, violations, repo, tier):
 
 EXECUTOR = MemberExecutor
 EXECUTOR_KW = {}
-EXTRA = [table_check, native_scope]
+EXTRA = [table_check, native_scope, native_files_info]
 TRUSTED = [
     "decode (copy = identity, LZMA / LZMA2 via liblzma) is uninterpreted: _apply_decoder is an assumed contract; its results are "
     "compared natively by replay/C10.py for copy / LZMA / LZMA2 folders",
